@@ -119,32 +119,58 @@ func (c *Cluster) handleListOffsets(creq *clientReq) (kmsg.Response, error) {
 				}
 			default:
 				// Two-level binary search for the first batch whose maxTimestamp >= requested timestamp.
-				segIdx, _, meta := pd.findBatchMeta(rp.Timestamp, func(m *batchMeta) int64 { return m.maxTimestamp })
+				segIdx, metaIdx, meta := pd.findBatchMeta(rp.Timestamp, func(m *batchMeta) int64 { return m.maxTimestamp })
+				sp.Offset = -1
 				if meta == nil {
-					sp.Offset = -1
-				} else {
-					sp.Offset = meta.firstOffset
-					sp.Timestamp = meta.firstTimestamp
-					sp.LeaderEpoch = meta.epoch
-					// Read the full batch to iterate records for precise timestamp
-					batch, err := c.readBatchFull(pd, segIdx, meta)
-					if err != nil {
-						sp.ErrorCode = kerr.CorruptMessage.Code
-						continue
+					break
+				}
+				// The answer is the first record at or after the log
+				// start whose timestamp is at or after the requested
+				// one. The batch found usually holds it; it does not
+				// if DeleteRecords moved the log start past the
+				// batch's qualifying records, so we walk on if needed.
+				var found, corrupt bool
+			scan:
+				for si := segIdx; si < len(pd.segments); si++ {
+					start := 0
+					if si == segIdx {
+						start = metaIdx
 					}
-					err = forEachBatchRecord(batch.RecordBatch, func(rec kmsg.Record) error {
-						timestamp := batch.FirstTimestamp + rec.TimestampDelta64
-						offset := batch.FirstOffset + int64(rec.OffsetDelta)
-						if timestamp <= rp.Timestamp {
-							sp.Offset = offset
-							sp.Timestamp = timestamp
+					index := pd.segments[si].index
+					for mi := start; mi < len(index); mi++ {
+						m := &index[mi]
+						if m.maxTimestamp < rp.Timestamp || m.firstOffset+int64(m.lastOffsetDelta) < pd.logStartOffset {
+							continue
 						}
-						return nil
-					})
-					if err != nil {
-						sp.ErrorCode = kerr.CorruptMessage.Code
-						continue
+						// Read the full batch to iterate records for precise timestamp
+						batch, err := c.readBatchFull(pd, si, m)
+						if err != nil {
+							corrupt = true
+							break scan
+						}
+						err = forEachBatchRecord(batch.RecordBatch, func(rec kmsg.Record) error {
+							timestamp := batch.FirstTimestamp + rec.TimestampDelta64
+							offset := batch.FirstOffset + int64(rec.OffsetDelta)
+							if !found && offset >= pd.logStartOffset && timestamp >= rp.Timestamp {
+								sp.Offset = offset
+								sp.Timestamp = timestamp
+								sp.LeaderEpoch = m.epoch
+								found = true
+							}
+							return nil
+						})
+						if err != nil {
+							corrupt = true
+							break scan
+						}
+						if found {
+							break scan
+						}
 					}
+				}
+				if corrupt {
+					sp.ErrorCode = kerr.CorruptMessage.Code
+					continue
 				}
 			}
 		}
